@@ -10,7 +10,6 @@ use codespan_reporting::files::SimpleFile;
 use codespan_reporting::term::termcolor::ColorChoice;
 use codespan_reporting::term::termcolor::{StandardStream, WriteColor};
 use codespan_reporting::term::{Config, emit_to_write_style};
-use nom::Offset;
 use nom::error::{ContextError, ErrorKind, FromExternalError, ParseError};
 
 use crate::ParseOptions;
@@ -124,7 +123,12 @@ pub fn parse<S: AsRef<str> + Clone + fmt::Display>(
     };
 
     let range = move |span: &[u8]| {
-        let offset = input.offset(span);
+        // Some diagnostics carry placeholder spans (e.g., for an optional header
+        // field that is absent) which do not point into `input`
+        let offset = (span.as_ptr() as usize).wrapping_sub(input.as_ptr() as usize);
+        if offset > input.len() || span.len() > input.len() - offset {
+            return 0..0;
+        }
         let end = offset + span.len();
         if end >= input.len() {
             offset..offset
